@@ -91,17 +91,53 @@ Proof.
   - exists c0. repeat split; assumption.
 Qed.
 
-Lemma send_initially_inv : forall s r w m s' o, Inv s -> _send_initially s r w m = (s', o) -> Inv s'.
-Proof. intros s r w m s' o HI H. apply send_initially_frame in H. destruct H as (H1 & H2 & _). eapply Inv_frame; eauto. Qed.
-Lemma continue_backlog_inv : forall s r s' o, Inv s -> _continue_backlog s r = (s', o) -> Inv s'.
-Proof. intros s r s' o HI H. apply continue_backlog_frame in H. destruct H as (H1 & H2 & _). eapply Inv_frame; eauto. Qed.
-Lemma remove_exchange_inv : forall s r w s' o, Inv s -> _remove_exchange s r w = (s', o) -> Inv s'.
+Lemma run_stoppers_inv : forall e qs s s' o, Inv s -> run_stoppers s qs e = (s', o) -> Inv s'.
 Proof.
-  intros s r w s' o HI H. unfold _remove_exchange in H.
+  intros e. induction qs as [|q rest IH]; intros s s' o HI H; cbn [run_stoppers] in H; [invpairs; exact HI|].
+  destruct (add_exception s q e) as [s1 o1] eqn:A. apply add_event_inv in A; [|exact HI].
+  destruct (run_stoppers s1 rest e) as [s2 o2] eqn:R. apply IH in R; [|exact A]. invpairs. exact R.
+Qed.
+Lemma tm_dispatch_error_inv : forall s k r s' o, Inv s -> tm_dispatch_error s k r = (s', o) -> Inv s'.
+Proof.
+  intros s k r s' o HI H. unfold tm_dispatch_error in H. destruct (outgoing s); [|invpairs; exact HI].
+  eapply run_stoppers_inv; eauto.
+Qed.
+Lemma mm_dispatch_error_inv : forall s k r s' o, Inv s -> mm_dispatch_error s k r = (s', o) -> Inv s'.
+Proof.
+  intros s k r s' o HI H. unfold mm_dispatch_error in H. destruct (exchanges s); [|invpairs; exact HI].
+  destruct (tm_dispatch_error s k r) as [s1 o1] eqn:T.
+  apply tm_dispatch_error_inv in T; [|exact HI]. invpairs. eapply Inv_frame; [| |exact T]; reflexivity.
+Qed.
+Lemma send_via_transport_inv : forall s r w s' o, Inv s -> _send_via_transport s r w = (s', o) -> Inv s'.
+Proof.
+  intros s r w s' o HI H. unfold _send_via_transport in H. destruct (refuses s r); [eapply mm_dispatch_error_inv; eauto|invpairs; exact HI].
+Qed.
+Lemma send_initially_inv : forall s r w m s' o, Inv s -> _send_initially s r w m = (s', o) -> Inv s'.
+Proof.
+  intros s r w m s' o HI H. unfold _send_initially in H. eapply send_via_transport_inv; [|exact H].
+  destruct (w_mtype w =? CON); [destruct m|]; try exact HI.
+  destruct (add_exchange_frame s r w z) as (F1 & F2 & _). eapply Inv_frame; eauto.
+Qed.
+Lemma continue_loop_inv : forall r fuel s s' o x, Inv s -> _continue_backlog_loop fuel s r = (s', o, x) -> Inv s'.
+Proof.
+  intros r. induction fuel as [|f IH]; intros s s' o x HI H; cbn [_continue_backlog_loop] in H; [invpairs; exact HI|].
+  destruct (exchanges s); [|invpairs; exact HI]. destruct (has_exchange r l); [invpairs; exact HI|].
+  destruct (alookup Z.eqb r (backlogs s)) as [[|[w m] rest]|]; try (invpairs; try exact HI; (eapply Inv_frame; [| |exact HI]; reflexivity); fail).
+  destruct (_send_initially _ r w (Some m)) as [s1 o1] eqn:S. apply send_initially_inv in S.
+  2: { eapply Inv_frame; [| |exact HI]; reflexivity. }
+  destruct (_continue_backlog_loop f s1 r) as [[s2 o2] x2] eqn:L. apply IH in L; [|exact S]. invpairs. exact L.
+Qed.
+Lemma continue_backlog_inv : forall s r s' o x, Inv s -> _continue_backlog s r = (s', o, x) -> Inv s'.
+Proof.
+  intros s r s' o x HI H. unfold _continue_backlog in H. destruct (alookup Z.eqb r (backlogs s)); [eapply continue_loop_inv; eauto|invpairs; exact HI].
+Qed.
+Lemma remove_exchange_inv : forall s r w s' o x, Inv s -> _remove_exchange s r w = (s', o, x) -> Inv s'.
+Proof.
+  intros s r w s' o x HI H. unfold _remove_exchange in H.
   destruct (exchanges s); [|invpairs; exact HI].
   destruct (alookup rm_eqb (r, w_mid w) l); [|invpairs; exact HI].
   destruct (if w_mtype w =? RST then _ else _) as [s2 o2] eqn:A.
-  destruct (_continue_backlog s2 r) as [s3 o3] eqn:C. invpairs.
+  destruct (_continue_backlog s2 r) as [[s3 o3] x3] eqn:C. invpairs.
   eapply continue_backlog_inv; [|exact C].
   assert (HI1 : Inv (set_exchanges s (Some (aremove rm_eqb (r, w_mid w) l)))) by (eapply Inv_frame; [| |exact HI]; reflexivity).
   destruct (w_mtype w =? RST); [eapply add_event_inv; eauto|invpairs; exact HI1].
@@ -120,9 +156,10 @@ Lemma dispatch_message_inv : forall s r mcl w s' o, Inv s -> dispatch_message s 
 Proof.
   intros s r mcl w s' o HI H. unfold dispatch_message in H.
   destruct (is_request (w_code w)). { invpairs. exact HI. }
-  destruct (if (w_mtype w =? ACK) || (w_mtype w =? RST) then _ else _) as [s1 o1] eqn:RE.
+  destruct (if (w_mtype w =? ACK) || (w_mtype w =? RST) then _ else _) as [[s1 o1] x1] eqn:RE.
   assert (I1 : Inv s1).
   { destruct ((w_mtype w =? ACK) || (w_mtype w =? RST)); [eapply remove_exchange_inv; eauto|invpairs; exact HI]. }
+  destruct x1. { invpairs. exact I1. }
   destruct ((w_code w =? EMPTY) && (w_mtype w =? CON)).
   { destruct (_send_initially s1 r _ None) as [s2 o2] eqn:S. apply send_initially_inv in S; [|exact I1]. invpairs. exact S. }
   destruct ((w_code w =? EMPTY) && ((w_mtype w =? ACK) || (w_mtype w =? RST))). { invpairs. exact I1. }
@@ -131,50 +168,36 @@ Proof.
   destruct b; [destruct (w_mtype w =? CON)|destruct ((w_mtype w =? CON) && negb mcl)];
     try (destruct (_send_initially s2 r _ None) as [s3 o3] eqn:S; apply send_initially_inv in S; [|exact P]); invpairs; assumption.
 Qed.
-Lemma run_stoppers_inv : forall e qs s s' o, Inv s -> run_stoppers s qs e = (s', o) -> Inv s'.
-Proof.
-  intros e. induction qs as [|q rest IH]; intros s s' o HI H; cbn [run_stoppers] in H; [invpairs; exact HI|].
-  destruct (add_exception s q e) as [s1 o1] eqn:A. apply add_event_inv in A; [|exact HI].
-  destruct (run_stoppers s1 rest e) as [s2 o2] eqn:R. apply IH in R; [|exact A]. invpairs. exact R.
-Qed.
-Lemma tm_dispatch_error_inv : forall s k r s' o, Inv s -> tm_dispatch_error s k r = (s', o) -> Inv s'.
-Proof.
-  intros s k r s' o HI H. unfold tm_dispatch_error in H. destruct (outgoing s); [|invpairs; exact HI].
-  eapply run_stoppers_inv; eauto.
-Qed.
-Lemma mm_dispatch_error_inv : forall s k r s' o, Inv s -> mm_dispatch_error s k r = (s', o) -> Inv s'.
-Proof.
-  intros s k r s' o HI H. unfold mm_dispatch_error in H. destruct (exchanges s); [|invpairs; exact HI].
-  destruct (tm_dispatch_error s k r) as [s1 o1] eqn:T.
-  apply tm_dispatch_error_inv in T; [|exact HI]. invpairs. eapply Inv_frame; [| |exact T]; reflexivity.
-Qed.
 Lemma retransmit_inv : forall s r mid s' o, Inv s -> _retransmit s r mid = (s', o) -> Inv s'.
 Proof.
   intros s r mid s' o HI H. unfold _retransmit in H. destruct (exchanges s); [|invpairs; exact HI].
   destruct (alookup rm_eqb (r, mid) l); [|invpairs; exact HI].
-  destruct (ex_counter e <? 4); [invpairs; eapply Inv_frame; [| |exact HI]; reflexivity|].
-  eapply tm_dispatch_error_inv; [|exact H]. eapply Inv_frame; [| |exact HI]; reflexivity.
+  destruct (ex_counter e <? 4).
+  - destruct (_send_via_transport _ r (ex_msg e)) as [s2 o2] eqn:S. apply send_via_transport_inv in S.
+    2: { eapply Inv_frame; [| |exact HI]; reflexivity. }
+    destruct (exchanges s2); invpairs; [eapply Inv_frame; [| |exact S]; reflexivity|exact S].
+  - destruct (amem Z.eqb r _); [|invpairs; eapply Inv_frame; [| |exact HI]; reflexivity].
+    eapply tm_dispatch_error_inv; [|exact H]. eapply Inv_frame; [| |exact HI]; reflexivity.
 Qed.
 Lemma shutdown_inv : forall s s' o, Inv s -> shutdown s = (s', o) -> Inv s'.
 Proof.
   intros s s' o HI H. unfold shutdown in H. destruct (outgoing s); [|invpairs; exact HI].
   destruct (tm_shutdown_loop (length l) s). invpairs. exact I.
 Qed.
-Lemma send_message_frame : forall s r mt tok obs m s' o, send_message s r mt tok obs m = Ok (s', o) ->
-  outgoing s' = outgoing s /\ reqs s' = reqs s /\ tmst s' = tmst s.
+Lemma send_message_inv : forall s r mt tok obs m s' o, Inv s -> send_message s r mt tok obs m = Ok (s', o) -> Inv s'.
 Proof.
-  intros s r mt tok obs m s' o H. unfold send_message in H.
+  intros s r mt tok obs m s' o HI H. unfold send_message in H.
   set (mt' := match mt with None => _ | Some _ => _ end) in H. clearbody mt'.
   destruct ((mt' =? CON) && is_multicast r); [discriminate|]. cbn [_next_message_id] in H.
   set (s1 := set_next_mid s _) in H.
-  assert (R1 : outgoing s1 = outgoing s /\ reqs s1 = reqs s /\ tmst s1 = tmst s) by (repeat split). clearbody s1.
+  assert (I1 : Inv s1) by (eapply Inv_frame; [| |exact HI]; reflexivity). clearbody s1.
   set (w := {| w_mtype := mt' |}) in H. clearbody w.
   destruct ((mt' =? CON) && amem Z.eqb r _).
   - set (s2 := set_backlogs s1 _) in H.
-    assert (R2 : outgoing s2 = outgoing s /\ reqs s2 = reqs s /\ tmst s2 = tmst s) by exact R1. clearbody s2.
-    injection H as <- <-. exact R2.
-  - destruct (_send_initially s1 r w (Some m)) as [s2 o1] eqn:S. apply send_initially_frame in S.
-    injection H as <- <-. destruct S as (-> & -> & -> & _). exact R1.
+    assert (I2 : Inv s2) by (eapply Inv_frame; [| |exact I1]; reflexivity). clearbody s2.
+    injection H as <- <-. exact I2.
+  - destruct (_send_initially s1 r w (Some m)) as [s2 o1] eqn:S. apply send_initially_inv in S; [|exact I1].
+    injection H as <- <-. exact S.
 Qed.
 
 Lemma stop_interest_live : forall c k c' ks, cq_cbs c = Some [CbProcess; CbInterestEnd k] -> _stop_interest c = (c', ks) ->
@@ -212,7 +235,7 @@ Proof.
       destruct (q' =? q) eqn:E; [apply Z.eqb_eq in E; subst; unfold get_req in G; congruence|]. split; assumption. }
   set (s2 := on_interest_end s1 q k) in *. clearbody s2. clear I0.
   destruct (send_message s2 r mt tok obs q) as [[s3 o3]|e] eqn:SM.
-  - apply send_message_frame in SM. destruct SM as (S1 & S2 & _). invpairs. eapply Inv_frame; eauto.
+  - apply send_message_inv in SM; [|exact I2]. invpairs. exact SM.
   - destruct (add_exception s2 q e) as [s3 o3] eqn:A. apply add_event_inv in A; [|exact I2]. invpairs. exact A.
 Qed.
 Lemma cancel_inv : forall s q s' o, Inv s -> cancel s q = (s', o) -> Inv s'.
@@ -254,6 +277,7 @@ Proof.
   - eapply mm_dispatch_error_inv; eauto.
   - eapply cancel_inv; eauto.
   - invpairs. apply obs_cancel_inv. exact HI.
+  - invpairs. eapply Inv_frame; [| |exact HI]; reflexivity.
   - eapply shutdown_inv; eauto.
 Qed.
 Lemma run_inv : forall es s s' os, Inv s -> run s es = (s', os) -> Inv s'.
@@ -428,4 +452,80 @@ Proof.
   intros t i j Ht Hij Hd E. rewrite !next_token_n_val in E by exact Ht.
   apply token_injective_lemma in E; try (apply Z.mod_pos_bound; reflexivity).
   change (2 ^ 64) with 18446744073709551616 in *. lia.
+Qed.
+
+(* ---- a request whose first transmission the transport refuses synchronously: the error is reported from INSIDE
+   send_message (send -> dispatch_error -> fan-out); because TokenManager.request registered the request BEFORE handing
+   it to send_message, the fan-out finds it and fails it in the very step in which it was issued *)
+Definition eff_mtype (mt : option Z) : Z := match mt with None => CON | Some m => m end.
+Lemma In_aset_same : forall {V} k (v : V) l, In (k, v) (aset key_eqb k v l).
+Proof.
+  intros V k v. induction l as [|[k1 v1] r IH]; cbn [aset]; [left; reflexivity|].
+  destruct (key_eqb k k1); [left; reflexivity|right; exact IH].
+Qed.
+Lemma send_message_refused : forall s r mt tok obs m og tok' q c,
+  Inv s -> outgoing s = Some og -> exchanges s <> None -> refuses s r = true -> is_multicast r = false ->
+  (eff_mtype mt = CON -> amem Z.eqb r (backlogs s) = false) ->
+  In ((tok', Some r), q) og -> get_req s q = Some c -> cq_fut c = FPending ->
+  exists s' o, send_message s r mt tok obs m = Ok (s', o) /\ In (SetException q NetworkError) o.
+Proof.
+  intros s r mt tok obs m og tok' q c HI Hog Hex Hr Hmc Hbl Hin G Hf. unfold send_message.
+  destruct (exchanges s) as [ex|] eqn:Eex; [|contradiction]. rewrite Hmc.
+  assert (Emt : (match mt with None => CON | Some m0 => m0 end) = eff_mtype mt) by (destruct mt; reflexivity).
+  rewrite Emt. rewrite andb_false_r. cbn [_next_message_id].
+  set (s1 := set_next_mid s _).
+  assert (Hbl1 : (eff_mtype mt =? CON) && amem Z.eqb r (backlogs s1) = false).
+  { destruct (eff_mtype mt =? CON) eqn:E; [|reflexivity]. apply Z.eqb_eq in E. cbn. apply Hbl. exact E. }
+  rewrite Hbl1. set (w := {| w_mtype := eff_mtype mt |}).
+  unfold _send_initially, _send_via_transport.
+  set (s2 := if w_mtype w =? CON then _ else s1).
+  assert (F : outgoing s2 = Some og /\ reqs s2 = reqs s /\ refusing s2 = refusing s /\ exchanges s2 <> None).
+  { subst s2. destruct (w_mtype w =? CON).
+    - destruct (add_exchange_frame s1 r w m) as (F1 & F2 & _ & F4). rewrite F1, F2, F4. repeat split; try assumption.
+      unfold _add_exchange. destruct (amem Z.eqb r (backlogs s1)); cbn; rewrite Eex; discriminate.
+    - repeat split; try assumption. cbn. rewrite Eex. discriminate. }
+  destruct F as (F1 & F2 & F3 & F4).
+  assert (I2 : Inv s2). { unfold Inv in *. rewrite F1. rewrite Hog in HI. intros k0 q0 H0. eapply entry_ok_frame; [|apply HI; exact H0]. unfold get_req. rewrite F2. reflexivity. }
+  clearbody s2. replace (refuses s2 r) with true by (unfold refuses in *; rewrite F3; symmetry; exact Hr).
+  assert (G2 : get_req s2 q = Some c) by (unfold get_req in *; rewrite F2; exact G).
+  pose proof (transport_error_fails_lemma s2 og r EOs tok' q c I2 F1 F4 Hin G2 Hf) as H.
+  destruct (mm_dispatch_error s2 EOs r) as [s3 o3]. eexists. eexists. split; [reflexivity|exact H].
+Qed.
+Lemma refused_request_fails_lemma : forall s q r mt obs og,
+  Inv s -> get_req s q = None -> outgoing s = Some og -> exchanges s <> None ->
+  refuses s r = true -> is_multicast r = false ->
+  (eff_mtype mt = CON -> amem Z.eqb r (backlogs s) = false) ->
+  In (SetException q NetworkError) (snd (new_request s q r mt obs)).
+Proof.
+  intros s q r mt obs og HI G Hog Hex Hr Hmc Hbl.
+  pose proof (new_request_inv s q r mt obs) as NI.
+  unfold new_request in *. rewrite G in *. set (c0 := {| cq_remote := r |}) in *.
+  unfold request in *. cbn [outgoing upd_req set_reqs] in *. rewrite Hog in *.
+  change (tmst (upd_req s q c0)) with (tmst s) in *. rewrite next_token_spec in *.
+  set (tok := tokbytes _) in *. rewrite Hmc in *. set (k := (tok, Some r)) in *.
+  set (s1 := set_outgoing _ _) in *.
+  assert (G1 : get_req s1 q = Some c0) by (subst s1; unfold get_req; cbn; rewrite alookup_aset by exact Zeqb_spec; rewrite Z.eqb_refl; reflexivity).
+  unfold on_interest_end in *. rewrite G1 in *. cbn [pipe_on_interest_end cq_cbs c0 _any_interest existsb is_interest orb pop_keys] in *.
+  set (c1 := set_cbs c0 _) in *. set (s2 := upd_req s1 q c1) in *.
+  assert (I2 : Inv s2).
+  { unfold Inv. subst s2 s1. cbn [outgoing upd_req set_reqs set_outgoing set_tmst].
+    intros k' q' Hin. apply In_aset in Hin. destruct Hin as [Hin|Hin].
+    - inversion Hin. subst k' q'. exists c1. unfold get_req. cbn [reqs set_reqs set_outgoing set_tmst upd_req].
+      rewrite alookup_aset by exact Zeqb_spec. rewrite Z.eqb_refl. split; [reflexivity|]. cbn. rewrite Hmc. repeat split. left. split; reflexivity.
+    - unfold Inv in HI. rewrite Hog in HI. specialize (HI k' q' Hin). destruct HI as (c & Gc & R). exists c.
+      unfold get_req in *. cbn [reqs set_reqs set_outgoing set_tmst upd_req]. rewrite !alookup_aset by exact Zeqb_spec.
+      destruct (q' =? q) eqn:E; [apply Z.eqb_eq in E; subst; congruence|]. split; assumption. }
+  assert (S2 : outgoing s2 = Some (aset key_eqb k q og) /\ exchanges s2 = exchanges s /\ backlogs s2 = backlogs s /\ refusing s2 = refusing s) by (repeat split).
+  destruct S2 as (O2 & E2 & B2 & R2).
+  assert (G2 : get_req s2 q = Some c1) by (subst s2; rewrite get_req_upd, Z.eqb_refl; reflexivity).
+  clearbody s2.
+  destruct (send_message_refused s2 r mt tok obs q (aset key_eqb k q og) tok q c1 I2 O2) as (s3 & o3 & SM & Hin).
+  - rewrite E2. exact Hex.
+  - unfold refuses in *. rewrite R2. exact Hr.
+  - exact Hmc.
+  - rewrite B2. exact Hbl.
+  - apply In_aset_same.
+  - exact G2.
+  - reflexivity.
+  - rewrite SM. cbn [snd]. right. exact Hin.
 Qed.
